@@ -29,6 +29,7 @@ type c08KD struct {
 	cert    string // "" = X509Certificate element with empty text
 	noCert  bool   // no X509Certificate element at all
 	methods []string
+	more    []string // further X509Certificate elements in the same X509Data (a published chain): the first one is the key holder's
 }
 
 type c08Layout struct {
@@ -50,6 +51,9 @@ func c08Layouts() []c08Layout {
 		{name: "enc+methods-without-aes128", kds: []c08KD{{use: "encryption", cert: sp, methods: all[1:]}}, advertises: true, decryptors: []string{"sp2048"}},
 		{name: "enc+methods-only-gcm", kds: []c08KD{{use: "encryption", cert: sp, methods: []string{"http://www.w3.org/2009/xmlenc11#aes128-gcm"}}}, advertises: true, decryptors: []string{"sp2048"}},
 		{name: "nouse", kds: []c08KD{{use: "", cert: sp}}, advertises: true, decryptors: []string{"sp2048"}},
+		{name: "nouse+chain", kds: []c08KD{{use: "", cert: sp, more: []string{other}}}, advertises: true, decryptors: []string{"sp2048"}},
+		{name: "enc+chain", kds: []c08KD{{use: "encryption", cert: sp, more: []string{other, samlgen.Key("spother2").CertB64}}}, advertises: true, decryptors: []string{"sp2048"}},
+		{name: "nouse+chain-with-empty-first", kds: []c08KD{{use: "", cert: "", more: []string{sp, other}}}, dontCare: true},
 		{name: "signing-only", kds: []c08KD{{use: "signing", cert: sp}}},
 		{name: "none"},
 		{name: "enc+signing", kds: []c08KD{{use: "encryption", cert: sp}, {use: "signing", cert: other}}, advertises: true, decryptors: []string{"sp2048"}},
@@ -71,9 +75,21 @@ func c08Layouts() []c08Layout {
 	}
 }
 
+// c08Roles: how the SP's role descriptors are laid out around the one that holds the POST ACS endpoint and the key descriptors.
+var c08Roles = []string{"single", "lead-artifact-only-descriptor", "post-acs-in-second-position", "trail-artifact-only-descriptor", "lead-and-second-position"}
+
 func (l c08Layout) metadata(firstCertOverride string) *saml.EntityDescriptor {
-	sd := saml.SPSSODescriptor{SSODescriptor: saml.SSODescriptor{RoleDescriptor: saml.RoleDescriptor{ProtocolSupportEnumeration: "urn:oasis:names:tc:SAML:2.0:protocol"}},
+	return l.metadataRoles(firstCertOverride, "single")
+}
+
+func (l c08Layout) metadataRoles(firstCertOverride, roles string) *saml.EntityDescriptor {
+	proto := saml.SSODescriptor{RoleDescriptor: saml.RoleDescriptor{ProtocolSupportEnumeration: "urn:oasis:names:tc:SAML:2.0:protocol"}}
+	art := saml.IndexedEndpoint{Binding: saml.HTTPArtifactBinding, Location: "https://sp.example.com/saml/artifact", Index: 7}
+	sd := saml.SPSSODescriptor{SSODescriptor: proto,
 		AssertionConsumerServices: []saml.IndexedEndpoint{{Binding: saml.HTTPPostBinding, Location: samlgen.SPAcs, Index: 1}}}
+	if roles == "post-acs-in-second-position" || roles == "lead-and-second-position" {
+		sd.AssertionConsumerServices = append([]saml.IndexedEndpoint{art}, sd.AssertionConsumerServices...)
+	}
 	for i, k := range l.kds {
 		kd := saml.KeyDescriptor{Use: k.use}
 		if !k.noCert {
@@ -82,6 +98,9 @@ func (l c08Layout) metadata(firstCertOverride string) *saml.EntityDescriptor {
 				c = firstCertOverride
 			}
 			kd.KeyInfo.X509Data.X509Certificates = []saml.X509Certificate{{Data: c}}
+			for _, m := range k.more {
+				kd.KeyInfo.X509Data.X509Certificates = append(kd.KeyInfo.X509Data.X509Certificates, saml.X509Certificate{Data: m})
+			}
 		}
 		for _, m := range k.methods {
 			kd.EncryptionMethods = append(kd.EncryptionMethods, saml.EncryptionMethod{Algorithm: m})
@@ -89,6 +108,13 @@ func (l c08Layout) metadata(firstCertOverride string) *saml.EntityDescriptor {
 		sd.KeyDescriptors = append(sd.KeyDescriptors, kd)
 	}
 	ed := &saml.EntityDescriptor{EntityID: samlgen.SPEntity, SPSSODescriptors: []saml.SPSSODescriptor{sd}}
+	bare := saml.SPSSODescriptor{SSODescriptor: proto, AssertionConsumerServices: []saml.IndexedEndpoint{art}}
+	switch roles {
+	case "lead-artifact-only-descriptor", "lead-and-second-position":
+		ed.SPSSODescriptors = []saml.SPSSODescriptor{bare, sd}
+	case "trail-artifact-only-descriptor":
+		ed.SPSSODescriptors = []saml.SPSSODescriptor{sd, bare}
+	}
 	b, err := xml.Marshal(ed)
 	if err != nil {
 		panic(err)
@@ -140,46 +166,54 @@ func runC08(c *core.Ctx) {
 	for _, l := range layouts {
 		for si, ss := range sessions {
 			for _, kind := range []string{"sp-initiated", "idp-initiated"} {
-				l, ss, kind, si := l, ss, kind, si
-				key := fmt.Sprintf("idp/%s/session=%s/%s", l.name, ss.name, kind)
-				c.Case(key, func(t *core.T) {
-					if !(l.name == "enc" && si == 0 && kind == "sp-initiated") {
-						t.NonTrivial()
+				for _, roles := range c08Roles {
+					if roles != "single" && si > 1 {
+						continue // the role-descriptor arrangements with the first two sessions
 					}
-					md := l.metadata("")
-					sess := ss.s
-					idp := harness.NewIDP("idp1", harness.SPRegistry{md.EntityID: md}, &sess)
-					rec := harness.NewCtr("c08" + key)
-					xmlenc.RandReader = rec
-					type obs struct{ cek, iv []byte }
-					var seen []obs
-					for round := 0; round < 3; round++ {
-						before := len(rec.Drawn)
-						body, p := c08Serve(idp, kind, round)
-						t.Impl(1)
-						if p != "" {
-							t.Fail("C08/idp/panic@"+p[strings.LastIndex(p, "@")+1:], "IdP panicked for key-descriptor layout %s: %s", l.name, p)
-							return
+					l, ss, kind, si, roles := l, ss, kind, si, roles
+					key := fmt.Sprintf("idp/%s/session=%s/%s", l.name, ss.name, kind)
+					if roles != "single" {
+						key += "/roles=" + roles
+					}
+					c.Case(key, func(t *core.T) {
+						if !(l.name == "enc" && si == 0 && kind == "sp-initiated") {
+							t.NonTrivial()
 						}
-						drawn := rec.Drawn[before:]
-						o, ok := c08CheckEmitted(t, l, &sess, body, drawn, key)
-						if !ok {
-							return
-						}
-						if o != nil {
-							for _, prev := range seen {
-								if bytes.Equal(prev.cek, o[0]) {
-									t.Fail("C08/idp/content-key-reused", "the content-encryption key of response %d equals that of an earlier response", round+1)
-								}
-								if bytes.Equal(prev.iv, o[1]) {
-									t.Fail("C08/idp/iv-reused", "the IV of response %d equals that of an earlier response", round+1)
-								}
+						md := l.metadataRoles("", roles)
+						sess := ss.s
+						idp := harness.NewIDP("idp1", harness.SPRegistry{md.EntityID: md}, &sess)
+						rec := harness.NewCtr("c08" + key)
+						xmlenc.RandReader = rec
+						type obs struct{ cek, iv []byte }
+						var seen []obs
+						for round := 0; round < 3; round++ {
+							before := len(rec.Drawn)
+							body, p := c08Serve(idp, kind, round)
+							t.Impl(1)
+							if p != "" {
+								t.Fail("C08/idp/panic@"+p[strings.LastIndex(p, "@")+1:], "IdP panicked for key-descriptor layout %s: %s", l.name, p)
+								return
 							}
-							seen = append(seen, obs{o[0], o[1]})
+							drawn := rec.Drawn[before:]
+							o, ok := c08CheckEmitted(t, l, &sess, body, drawn, key)
+							if !ok {
+								return
+							}
+							if o != nil {
+								for _, prev := range seen {
+									if bytes.Equal(prev.cek, o[0]) {
+										t.Fail("C08/idp/content-key-reused", "the content-encryption key of response %d equals that of an earlier response", round+1)
+									}
+									if bytes.Equal(prev.iv, o[1]) {
+										t.Fail("C08/idp/iv-reused", "the IV of response %d equals that of an earlier response", round+1)
+									}
+								}
+								seen = append(seen, obs{o[0], o[1]})
+							}
 						}
-					}
-					t.Compared()
-				})
+						t.Compared()
+					})
+				}
 			}
 		}
 	}
